@@ -146,6 +146,15 @@ pub fn date_to_string(params: &[Value]) -> NativeResult {
 /// Will return [`NativeError::CustomError`] if the String can not be parsed.
 /// Will return [`NativeError::WrongParameterCount`] if there is a mismatch in the supplied parameters.
 /// Will return [`NativeError::WrongParameterType`] if the the supplied parameters have the wrong type.
+/// chrono parses a second of `60` as a leap second, which a datetime number can not represent.
+fn reject_leap_second(time: &NaiveTime) -> Result<(), NativeError> {
+    if time.nanosecond() >= 1_000_000_000 {
+        Err(NativeError::from("input is out of range"))
+    } else {
+        Ok(())
+    }
+}
+
 pub fn string_to_date(params: &[Value]) -> NativeResult {
     let fmt = default_string(params, 1, "%Y-%m-%d")?;
 
@@ -180,6 +189,7 @@ pub fn string_to_time(params: &[Value]) -> NativeResult {
         [Value::String(s), ..] => {
             let time =
                 NaiveTime::parse_from_str(s, fmt).map_err(|e| NativeError::from(e.to_string()))?;
+            reject_leap_second(&time)?;
             let datetime = NaiveDate::default().and_time(time);
 
             Ok(Value::from(datetime))
@@ -205,6 +215,7 @@ pub fn string_to_datetime(params: &[Value]) -> NativeResult {
         [Value::String(s), ..] => {
             let datetime = NaiveDateTime::parse_from_str(s, fmt)
                 .map_err(|e| NativeError::from(e.to_string()))?;
+            reject_leap_second(&datetime.time())?;
 
             Ok(Value::from(datetime))
         }
